@@ -295,7 +295,8 @@ def collect (net : Net α) : List Nat → Except Fault (List Nat × α × α)
       | .error x => .error x
       | .ok (ls, d, t) => .ok (e.link :: ls, e.length + d, e.time + t)
 
-/-- `ShortestRoute`.  (Go accumulates `distance += e.length` left to right; `collect` sums right to
+/-- `ShortestRoute`.  The two fuel values are modelling devices (ids are `1 … n`, so `n + 2` expansions
+and `n + 3` path steps can never be exhausted: theorem `C19_route`).  (Go accumulates `distance += e.length` left to right; `collect` sums right to
 left — the same number in exact arithmetic, which is what the model computes in.) -/
 def shortestRoute (geo : Geo α) (pick : Pick α) (implementsWeighted : Bool) (ord : Nat → List Nat → List Nat)
     (net : Net α) (from_ to : Pt α) : Except Fault (Route α) :=
@@ -303,10 +304,10 @@ def shortestRoute (geo : Geo α) (pick : Pick α) (implementsWeighted : Bool) (o
   | some s, some t =>
     let A := adapter geo net implementsWeighted ord
     let n := net.nodes.length
-    match astar A pick (n + 1) s.id t.id with
+    match astar A pick (n + 2) s.id t.id with
     | .error e => .error e
     | .ok st =>
-      match shortestTo st s.id t.id (n + 2) with
+      match shortestTo st s.id t.id (n + 3) with
       | .error e => .error e
       | .ok nodes =>
         match collect net nodes with
